@@ -33,7 +33,7 @@ class Untranslatable(Exception):
 
 def lty(t):
     if isinstance(t, str):
-        return {"Int": "Int", "Nat": "Nat", "Bool": "Bool", "Str": "String", "Rat": "Rat", "Float": "Float", "Unit": "Unit", "Stream": "(List Tok)", "OV": "OV", "Tok": "Tok", "ZeroDef": "Nat"}.get(t, t)
+        return {"Int": "Int", "Nat": "Nat", "Bool": "Bool", "Str": "String", "Rat": "Rat", "Float": "Float", "Unit": "Unit", "Stream": "(List Tok)", "OV": "OV", "Tok": "Tok", "ZeroDef": "Nat", "Dest": "(List (List Tok))"}.get(t, t)
     if t[0] == "List":
         return "(List %s)" % lty(t[1])
     if t[0] == "Opt":
@@ -185,6 +185,10 @@ class Proc(object):
         if isinstance(e, ast.Name):
             if e.id in env.vars:
                 return env.vars[e.id]
+            p = self.procs.get((self.spec["file"], e.id))
+            if p is not None and not p.get("implicit") and not any(n.startswith("self") for n, _ in p["params"]):
+                # a translated module-level function used as a value (handed to another function)
+                return (p["name"], ("Fun", [t for _, t in p["params"]], p["ret"]))
             raise Untranslatable("free name %s" % e.id)
         if isinstance(e, ast.Attribute):
             return self.attribute(e, env)
@@ -210,6 +214,15 @@ class Proc(object):
                 return env.facts[self.seg(e)]
             if isinstance(bty, tuple) and bty[0] == "AssocL":
                 raise Untranslatable("plain subscript of a local dictionary (may raise KeyError): use .get")
+            if isinstance(bty, tuple) and bty[0] == "List" and isinstance(e.slice, ast.Slice) and e.slice.lower is None and e.slice.step is None \
+                    and isinstance(e.slice.upper, ast.Constant) and isinstance(e.slice.upper.value, int) and e.slice.upper.value >= 0:
+                return ("(%s.take %d)" % (bt, e.slice.upper.value), bty)          # xs[:n]
+            if isinstance(bty, tuple) and bty[0] == "Prod" and isinstance(e.slice, ast.Constant) and isinstance(e.slice.value, int) and 0 <= e.slice.value < len(bty) - 1:
+                i, n = e.slice.value, len(bty) - 1
+                return ("%s.%s" % (bt, ".".join(["2"] * i + (["1"] if i < n - 1 else []))), bty[1 + i])
+            if isinstance(bty, tuple) and bty[0] == "List" and isinstance(e.slice, ast.UnaryOp) and isinstance(e.slice.op, ast.USub) \
+                    and isinstance(e.slice.operand, ast.Constant) and e.slice.operand.value == 1:
+                return ("(listGet %s (((%s.length : Nat) : Int) - 1))" % (bt, bt), bty[1])          # xs[-1]
             if isinstance(bty, tuple) and bty[0] == "List":
                 it, ity = self.expr(e.slice, env)
                 if ity in ("Int", "Nat"):
@@ -305,6 +318,11 @@ class Proc(object):
             if not (isinstance(ty, tuple) and ty[0] == "Opt"):
                 raise Untranslatable("`is None` on a %s" % lty(ty))
             return ("%s.%s" % (t, "isNone" if isinstance(op, ast.Is) else "isSome"), "Bool")
+        if isinstance(op, (ast.Eq, ast.NotEq)) and isinstance(b, ast.Constant) and b.value is None:
+            t, ty = self.expr(a, env)
+            if isinstance(ty, tuple) and ty[0] == "Opt":
+                return ("%s.%s" % (t, "isNone" if isinstance(op, ast.Eq) else "isSome"), "Bool")
+            raise Untranslatable("comparison of a %s with None" % lty(ty))
         if isinstance(op, (ast.In, ast.NotIn)):
             x, xty = self.expr(a, env)
             c, cty = self.expr(b, env)
@@ -551,10 +569,16 @@ class Proc(object):
             t, ty = self.expr(e.args[0], env)
             if ty == ("List", "Stream"):
                 return ("(joinStreams %s)" % t, "Stream")
+            if ty == ("List", "Str"):
+                return ("(joinToks \"<os.linesep>\" (%s.map fun s => Tok.mk \"%%s\" [OV.str s]))" % t, "Tok")
         if fname == "range" and 1 <= len(e.args) <= 2:
             lo = "(0 : Int)" if len(e.args) == 1 else self.coerce(*self.expr(e.args[0], env), "Int")
             hi = self.coerce(*self.expr(e.args[-1], env), "Int")
             return ("(intRange %s %s)" % (lo, hi), ("List", "Int"))
+        if self.seg(f) == "bisect.bisect_left" and len(e.args) == 2 and self.seg(e.args[0]) in self.spec.get("bisect_ops", {}):
+            # the first argument is the declared view of a list of (x, y) rows by their x component: the operation `bisectLeft rows x`
+            rows, rty = self.expr(ast.Name(id=self.spec["bisect_ops"][self.seg(e.args[0])], ctx=ast.Load()), env)
+            return ("(bisectLeft %s %s)" % (rows, self.coerce(*self.expr(e.args[1], env), "Rat")), "Int")
         if fname == "tuple" and len(e.args) == 1:
             return self.expr(e.args[0], env)
         if fname == "set" and not e.args:
@@ -642,6 +666,23 @@ class Proc(object):
         if isinstance(e, ast.BinOp) and isinstance(e.op, ast.Mult) and isinstance(e.left, ast.Constant) and isinstance(e.left.value, int) and not isinstance(e.left.value, bool):
             a = self.const_str(e.right, env)
             return None if a is None else e.left.value * a
+        if isinstance(e, ast.BinOp) and isinstance(e.op, ast.Mod):
+            # a template built from constant pieces:  u"%%d %s %%d %s %s" % ((numbertemplate,)*3)
+            a, t = self.const_str(e.left, env), self.const_tuple(e.right, env)
+            if a is not None and t is not None:
+                try:
+                    return a % t
+                except (TypeError, ValueError):
+                    return None
+        return None
+
+    def const_tuple(self, e, env):
+        if isinstance(e, ast.Tuple):
+            parts = [self.const_str(x, env) for x in e.elts]
+            return None if any(p is None for p in parts) else tuple(parts)
+        if isinstance(e, ast.BinOp) and isinstance(e.op, ast.Mult) and isinstance(e.right, ast.Constant) and isinstance(e.right.value, int) and not isinstance(e.right.value, bool):
+            t = self.const_tuple(e.left, env)
+            return None if t is None else t * e.right.value
         return None
 
     def ov(self, e, env):
@@ -729,17 +770,21 @@ class Proc(object):
         if isinstance(f, ast.Name) and f.id == "print" and len(c.args) == 1 and len(c.keywords) == 1 and c.keywords[0].arg == "file" and isinstance(c.keywords[0].value, ast.Name):
             x = c.keywords[0].value.id
             xt, xty = self.expr(c.keywords[0].value, env)
+            if xty == "Dest":
+                return (x, "(%s ++ [[%s]])" % (xt, self.fmt_tok(c.args[0], env, newline=True)), "Dest", False)      # one write call = one chunk
             if xty != "Stream":
                 raise Untranslatable("print to a %s" % (xty,))
             return (x, "(%s ++ [%s])" % (xt, self.fmt_tok(c.args[0], env, newline=True)), "Stream", False)
         if isinstance(f, ast.Attribute) and f.attr == "write" and isinstance(f.value, ast.Name) and len(c.args) == 1 and not c.keywords:
             xt, xty = self.expr(f.value, env)
-            if xty != "Stream":
+            if xty not in ("Stream", "Dest"):
                 return None
             try:
                 vt, vty = self.expr(c.args[0], env)
             except Untranslatable:
                 vt, vty = None, None
+            if xty == "Dest":
+                return (f.value.id, "(%s ++ [%s])" % (xt, vt if vty == "Stream" else "[%s]" % self.fmt_tok(c.args[0], env)), "Dest", False)      # one write call = one chunk
             if vty == "Stream":
                 return (f.value.id, "(%s ++ %s)" % (xt, vt), "Stream", False)
             return (f.value.id, "(%s ++ [%s])" % (xt, self.fmt_tok(c.args[0], env)), "Stream", False)
@@ -748,6 +793,16 @@ class Proc(object):
             if isinstance(xty, tuple) and xty[0] == "List":
                 vt, vty = self.expr(c.args[0], env)
                 return (f.value.id, "(%s ++ [%s])" % (xt, self.coerce(vt, vty, xty[1])), xty, False)
+        if isinstance(f, ast.Attribute) and f.attr == "extend" and isinstance(f.value, ast.Name) and len(c.args) == 1 and not c.keywords:
+            xt, xty = self.expr(f.value, env)
+            if isinstance(xty, tuple) and xty[0] == "List":
+                vt, vty = self.expr(c.args[0], env)
+                if vty == xty or vty == "EmptyList":
+                    return (f.value.id, "(%s ++ %s)" % (xt, "[]" if vty == "EmptyList" else vt), xty, False)
+                if xty == ("List", "Tok") and vty == ("List", "Str"):
+                    # strings joining a list of formatted pieces: each is the piece "%s" of itself
+                    return (f.value.id, "(%s ++ (%s.map fun s => Tok.mk \"%%s\" [OV.str s]))" % (xt, vt), xty, False)
+                raise Untranslatable("extend of %s by %s" % (xty, vty))
         if isinstance(f, ast.Attribute) and f.attr == "add" and isinstance(f.value, ast.Name) and len(c.args) == 1 and not c.keywords:
             xt, xty = self.expr(f.value, env)
             if isinstance(xty, tuple) and xty[0] == "Set":
@@ -796,7 +851,8 @@ class Proc(object):
             if not isinstance(c.args[idx], ast.Name):
                 raise Untranslatable("stream argument of %s is not a variable" % fname)
             vt, vty = self.call(c, env)
-            return (c.args[idx].id, vt, "Stream", isinstance(vty, tuple) and vty[0] == "Except")
+            raising = isinstance(vty, tuple) and vty[0] == "Except"
+            return (c.args[idx].id, vt, vty[2] if raising else vty, raising)
         return None
 
     # -------------------------------------------------------------------------------------------------------------- conditions
@@ -826,15 +882,17 @@ class Proc(object):
             a, b = (kt(present), kf(env)) if isinstance(e.ops[0], ast.In) else (kf(present), kt(env))
             return "(match (lookupLast %s %s) with\n| some %s => %s\n| none => %s)" % (d, key, n, a, b)
         # x is None / x is not None
-        if isinstance(e, ast.Compare) and len(e.ops) == 1 and isinstance(e.ops[0], (ast.Is, ast.IsNot)) \
+        if isinstance(e, ast.Compare) and len(e.ops) == 1 and isinstance(e.ops[0], (ast.Is, ast.IsNot, ast.Eq, ast.NotEq)) \
                 and isinstance(e.comparators[0], ast.Constant) and e.comparators[0].value is None and isinstance(e.left, ast.Name):
             name = e.left.id
             if name in env.vars:
                 lean, ty = env.vars[name]
                 if isinstance(ty, tuple) and ty[0] == "Opt":
-                    return self.match_opt(name, lean, ty, env, kt, kf, isinstance(e.ops[0], ast.IsNot))
+                    return self.match_opt(name, lean, ty, env, kt, kf, isinstance(e.ops[0], (ast.IsNot, ast.NotEq)))
+                if isinstance(e.ops[0], (ast.Eq, ast.NotEq)):
+                    raise Untranslatable("comparison of a %s with None" % lty(ty))
                 # already narrowed: the test is decided
-                return (kt if isinstance(e.ops[0], ast.IsNot) else kf)(env)
+                return (kt if isinstance(e.ops[0], (ast.IsNot, ast.NotEq)) else kf)(env)
         # truthiness of a bare name: Optional object / list
         if isinstance(e, ast.Name) and e.id in env.vars:
             lean, ty = env.vars[e.id]
@@ -843,6 +901,10 @@ class Proc(object):
             if ty == ("Opt", "Str"):
                 n = env.fresh(e.id)
                 return "(match %s with\n| some %s => (if %s != \"\" then %s else %s)\n| none => %s)" % (lean, n, n, kt(env.bind(e.id, n, "Str")), kf(env), kf(env))
+            if ty in (("Opt", "Rat"), ("Opt", "Int")):
+                # None and 0 are both false
+                n = env.fresh(e.id)
+                return "(match %s with\n| some %s => (if %s != 0 then %s else %s)\n| none => %s)" % (lean, n, n, kt(env.bind(e.id, n, ty[1])), kf(env), kf(env))
             if isinstance(ty, tuple) and ty[0] == "Rec":
                 return kt(env)
             if isinstance(ty, tuple) and ty[0] == "List":
@@ -914,12 +976,15 @@ class Proc(object):
                 return t
             return self.wrap_ret(t, ty)
         if isinstance(s, ast.Assign) and len(s.targets) == 1 and isinstance(s.targets[0], ast.Name) and rest and isinstance(rest[0], ast.Raise) \
-                and rest[0].exc is not None and any(isinstance(n, ast.Name) and n.id == s.targets[0].id for n in ast.walk(rest[0].exc)) and self.ret[0] == "Except":
+                and rest[0].exc is not None and any(isinstance(n, ast.Name) and n.id == s.targets[0].id for n in ast.walk(rest[0].exc)) and self.ret[0] == "Except" and not self.at_dest_level():
             # msg = "...".format(..) ; raise X(msg): the message text identifies the error
             text = ast.get_source_segment(self.src, s.value) or ""
             for sub, tag in self.spec.get("raises", []):
                 if sub in text:
                     return "(.error %s)" % tag
+        if isinstance(s, ast.Raise) and self.at_dest_level():
+            self.err_tag(s.exc)                                   # (must be a declared error)
+            return env.vars[self.spec["inout"]][0]               # the exception leaves the function: the destination holds what it held
         if isinstance(s, ast.Raise):
             if self.ret[0] != "Except":
                 raise Untranslatable("raise in a function declared not to raise")
@@ -972,6 +1037,14 @@ class Proc(object):
             if isinstance(tgt, ast.Tuple) and all(isinstance(x, ast.Name) for x in tgt.elts) and not isinstance(s.value, ast.Tuple):
                 # a, b = xs  with xs a list: Python raises ValueError unless it has exactly that many items
                 vt, vty = self.expr(s.value, env)
+                if isinstance(vty, tuple) and vty[0] == "Prod" and len(vty) - 1 == len(tgt.elts):
+                    tmp = env.fresh("pair")
+                    out, en = "let %s : %s := %s;\n" % (tmp, lty(vty), vt), env
+                    n = len(tgt.elts)
+                    for i, x in enumerate(tgt.elts):
+                        txt, en = self.assign_name(x, "%s.%s" % (tmp, ".".join(["2"] * i + (["1"] if i < n - 1 else []))), vty[1 + i], en)
+                        out += txt
+                    return out + self.block(rest, en, k)
                 if isinstance(vty, tuple) and vty[0] == "List" and self.spec.get("unpack_error") and self.ret[0] == "Except":
                     names = [env.fresh(x.id) for x in tgt.elts]
                     en = env
@@ -1012,11 +1085,11 @@ class Proc(object):
             vt, vty = self.expr(s.value, env)
             if isinstance(vty, tuple) and vty[0] == "Except":
                 # binding the result of a raising proc: propagate the error
-                if self.ret[0] != "Except" or self.ret[1] != vty[1]:
+                if not self.may_bind(vty):
                     raise Untranslatable("call of a raising function in a function that does not raise")
                 n = env.fresh("v")
                 txt, en = self.assign_name(tgt, n, vty[2], env)
-                return "(andThen %s fun %s =>\n%s%s)" % (vt, n, txt, self.block(rest, en, k))
+                return self.bind_raising(vt, n, txt + self.block(rest, en, k), env)
             txt, en = self.assign_name(tgt, vt, vty, env)
             return txt + self.block(rest, en, k)
         if isinstance(s, ast.AugAssign) and isinstance(s.target, ast.Name):
@@ -1051,23 +1124,23 @@ class Proc(object):
                 if bind:          # a raising writer: propagate the error
                     n = env.fresh("v")
                     txt, en = self.assign_name(ast.Name(id=name, ctx=ast.Store()), n, ty, env)
-                    return "(andThen %s fun %s =>\n%s%s)" % (newval, n, txt, self.block(rest, en, k))
+                    return self.bind_raising(newval, n, txt + self.block(rest, en, k), env)
                 txt, en = self.assign_name(ast.Name(id=name, ctx=ast.Store()), newval, ty, env)
                 return txt + self.block(rest, en, k)
         if isinstance(s, ast.Expr) and isinstance(s.value, ast.Call):
             # statement call of a raising proc:  self._check_positive(...)
             vt, vty = self.expr(s.value, env)
             if isinstance(vty, tuple) and vty[0] == "Except":
-                if self.ret[0] != "Except" or self.ret[1] != vty[1]:
+                if not self.may_bind(vty):
                     raise Untranslatable("call of a raising function in a function that does not raise")
-                return "(andThen %s fun _ =>\n%s)" % (vt, self.block(rest, env, k))
+                return self.bind_raising(vt, "_", self.block(rest, env, k), env)
             raise Untranslatable("expression statement %s" % (self.seg(s.value) or "")[:50])
         if isinstance(s, ast.Try):
             # try: X = rec.attr[key]  except KeyError: raise ...   - the look-up declared as partial (try_subscripts): absent key -> the error
             ok = len(s.body) == 1 and isinstance(s.body[0], ast.Assign) and len(s.body[0].targets) == 1 and isinstance(s.body[0].targets[0], ast.Name) \
                 and isinstance(s.body[0].value, ast.Subscript) and isinstance(s.body[0].value.value, ast.Attribute) and not s.orelse and not s.finalbody \
                 and len(s.handlers) == 1 and isinstance(s.handlers[0].type, ast.Name) and s.handlers[0].type.id == "KeyError" \
-                and len(s.handlers[0].body) == 1 and isinstance(s.handlers[0].body[0], ast.Raise) and self.ret[0] == "Except"
+                and len(s.handlers[0].body) == 1 and isinstance(s.handlers[0].body[0], ast.Raise) and (self.ret[0] == "Except" or self.at_dest_level())
             if not ok:
                 raise Untranslatable("try statement shape")
             sub = s.body[0].value
@@ -1079,7 +1152,8 @@ class Proc(object):
             key = self.coerce(*self.expr(sub.slice, env), kty)
             n = env.fresh("found")
             txt, en = self.assign_name(s.body[0].targets[0], n, vty, env)
-            return "(match (%s %s %s) with\n| some %s => %s%s\n| none => (.error %s))" % (lname, recv, key, n, txt, self.block(rest, en, k), self.err_tag(s.handlers[0].body[0].exc))
+            err = "(.error %s)" % self.err_tag(s.handlers[0].body[0].exc) if not self.at_dest_level() else env.vars[self.spec["inout"]][0]
+            return "(match (%s %s %s) with\n| some %s => %s%s\n| none => %s)" % (lname, recv, key, n, txt, self.block(rest, en, k), err)
         if isinstance(s, ast.If):
             body_t, else_t = self.terminates(s.body), self.terminates(s.orelse)
             if rest and not (body_t and else_t):
@@ -1099,6 +1173,22 @@ class Proc(object):
             return self.forloop(s, rest, env, k)
         raise Untranslatable("statement %s" % type(s).__name__)
 
+    def at_dest_level(self):
+        """translating the body of a destination-writes variant itself (not one of its inner folds, whose result type is set while they are translated)"""
+        return self.spec.get("dest_mode") and self.ret == "Dest"
+
+    def bind_raising(self, x, n, body, env, annot=None):
+        """run the raising computation x, bind its value to n, go on with body.  In a destination-writes variant the function's result is what the destination has
+        received when control leaves the function - normally OR through an exception: there the error case is the destination as it is now."""
+        if self.at_dest_level():
+            return "(match %s with\n| .ok %s => %s\n| .error _ => %s)" % (x, n if annot is None else "(%s : %s)" % (n, annot), body, env.vars[self.spec["inout"]][0])
+        return "(andThen %s fun %s =>\n%s)" % (x, n if annot is None else "(%s : %s)" % (n, annot), body)
+
+    def may_bind(self, vty):
+        if self.at_dest_level():
+            return vty[1] == self.spec.get("err")
+        return self.ret[0] == "Except" and self.ret[1] == vty[1]
+
     def inner_ret(self):
         return self.ret[2] if self.ret[0] == "Except" else self.ret
 
@@ -1112,6 +1202,9 @@ class Proc(object):
         declared = self.spec.get("locals", {}).get(name)
         if declared is None and name in env.vars and name in self.declared_types:
             declared = self.declared_types[name]
+        if name in self.spec.get("retype", []) and getattr(self, "_loop_depth", 0) == 0 and vty not in ("None", "EmptyList", "EmptySet", "EmptyDict"):
+            declared = None            # a name re-used for a value of another type (outside loops): the new binding has the new type
+            self.declared_types[name] = vty
         if declared is not None:
             vt, vty = self.coerce(vt, vty, declared), declared
         elif vty in ("None", "EmptyList", "EmptySet", "EmptyDict"):
@@ -1158,7 +1251,7 @@ class Proc(object):
         nested = any(isinstance(n, ast.For) for n in inner_nodes) or getattr(self, "_loop_depth", 0) > 0
         if nested:
             raising = any(isinstance(n, ast.Raise) for n in inner_nodes)
-            if any(isinstance(n, ast.Return) for n in inner_nodes) or (raising and self.ret[0] != "Except"):
+            if any(isinstance(n, ast.Return) for n in inner_nodes) or (raising and self.ret[0] != "Except" and not self.at_dest_level()):
                 raise Untranslatable("return inside nested loops / raise where the function does not raise")
             return self.forloop_fold(s, rest, env, k, xs, xty, lname, raising)
         # parameters of the loop function: every variable in scope (by its current lean name / narrowed type)
@@ -1201,7 +1294,7 @@ class Proc(object):
         vty = rty
         if raising:
             # a loop whose body may raise: the loop function returns `Except`, the caller goes on (andThen) with the carried variables
-            rty = ("Except", self.ret[1], rty)
+            rty = ("Except", self.ret[1] if self.ret[0] == "Except" else self.spec["err"], rty)
         inner = Env(counter=env.counter)
         pnames = []
         for n, l, t in scope:
@@ -1232,7 +1325,9 @@ class Proc(object):
         call = "(%s %s %s)" % (lname, " ".join([n for n, _ in self.fixed] + [l for (_, l, _) in scope]), xs)
         # the caller goes on with the carried variables
         res = env.fresh("loop")
-        out = "let %s : %s := %s;\n" % (res, lty(rty), call) if not raising else "(andThen %s fun (%s : %s) =>\n" % (call, res, lty(vty))
+        dest_bind = raising and self.at_dest_level()
+        out = "let %s : %s := %s;\n" % (res, lty(rty), call) if not raising else ("(andThen %s fun (%s : %s) =>\n" % (call, res, lty(vty)) if not dest_bind else
+                                                                                   "(match %s with\n| .error _ => %s\n| .ok (%s : %s) =>\n" % (call, env.vars[self.spec["inout"]][0], res, lty(vty)))
         en = env
         for i, (n, l, t) in enumerate(carried):
             nl = env.fresh(n.replace(".", "_"))
@@ -1385,13 +1480,20 @@ PROCS = [
          records=dict(EAM_REC, **POT_REC), methods={("OptPotRec", "energy"): ("energyOfOpt", ["Rat"], "OV")}, defaults={"scale_r": "true"},
          local_defs={"pairkey": ("setfl_pairkey", ["Str", "Str"], ("List", "Str"))}, absent_objects={"zeroPair": ("ZeroPair", {"energy": 0.0})},
          locals={"pairpotsdict": ("AssocL", ("List", "Str"), ("Rec", "PotRec"))}),
+    dict(name="setfl_header", file="_lammpsWriteEAM.py", func="_writeSetFLHeader", writer=True, inout="out",
+         params=[("nrho", "Int"), ("drho", "Rat"), ("nr", "Int"), ("dr", "Rat"), ("cutoff", "Rat"), ("eampots", ("List", ("Rec", "EamRec"))), ("comments", ("List", "Str")), ("out", "Stream")],
+         ret="Stream", records=EAM_REC, retype=["ntypes"]),
     dict(name="setfl_write", file="_lammpsWriteEAM.py", func="_writeSetFL", writer=True, inout="out",
          params=[("nrho", "Int"), ("drho", "Rat"), ("nr", "Int"), ("dr", "Rat"), ("cutoff", "Rat"), ("eampots", ("List", ("Rec", "EamRec"))), ("pairpots", ("List", ("Rec", "PotRec"))),
                  ("comments", ("List", "Str")), ("out", "Stream"),
                  ("writeDensityFunction", ("Fun", [("Rec", "EamRec"), ("List", ("Rec", "EamRec")), "Int", "Rat", "Stream"], "Stream"))], ret="Stream",
-         records=dict(EAM_REC, **POT_REC), methods=EAM_METHODS, inout_calls={"writeDensityFunction": 4, "_writeSetFLHeader": 7},
-         implicit=[("setflHeader", ("Fun", ["Int", "Rat", "Int", "Rat", "Rat", ("List", ("Rec", "EamRec")), ("List", "Str"), "Stream"], "Stream"))],
-         ops={"_writeSetFLHeader": ("setflHeader", ["Int", "Rat", "Int", "Rat", "Rat", ("List", ("Rec", "EamRec")), ("List", "Str"), "Stream"], "Stream")}),
+         records=dict(EAM_REC, **POT_REC), methods=EAM_METHODS, inout_calls={"writeDensityFunction": 4}),
+    dict(name="setfl_write_alloy", file="_lammpsWriteEAM.py", func="writeSetFL", writer=True, inout="out",
+         params=[("nrho", "Int"), ("drho", "Rat"), ("nr", "Int"), ("dr", "Rat"), ("eampots", ("List", ("Rec", "EamRec"))), ("pairpots", ("List", ("Rec", "PotRec"))),
+                 ("out", "Stream"), ("comments", ("List", "Str")), ("cutoff", ("Opt", "Rat"))], ret="Stream", records=dict(EAM_REC, **POT_REC), retype=["cutoff"]),
+    dict(name="setfl_write_fs", file="_lammpsWriteEAM.py", func="writeSetFLFinnisSinclair", writer=True, inout="out",
+         params=[("nrho", "Int"), ("drho", "Rat"), ("nr", "Int"), ("dr", "Rat"), ("eampots", ("List", ("Rec", "EamRec"))), ("pairpots", ("List", ("Rec", "PotRec"))),
+                 ("out", "Stream"), ("comments", ("List", "Str")), ("cutoff", ("Opt", "Rat"))], ret="Stream", records=dict(EAM_REC, **POT_REC), retype=["cutoff"]),
     dict(name="tabeam_tabulate", file="_dlpoly_writeTABEAM.py", func="_tabulateFunction", writer=True, inout="outputfile",
          params=[("outputfile", "Stream"), ("func", ("Rec", "FnRec")), ("numpoints", "Int"), ("step", "Rat")], ret="Stream", records=EAM_REC, methods=EAM_METHODS,
          locals={"row": ("List", "Tok")}),
@@ -1441,6 +1543,13 @@ PROCS = [
     dict(name="parse_x_y", file="config/_config_parser.py", func="_TableFormSection._parse_x_y", given=["x_string", "y_string", "x", "y"], sig_from_locals=True,
          params=[("x", ("List", "Rat")), ("y", ("List", "Rat"))], ret=("Except", "TableErr", ("Prod", ("List", "Rat"), ("List", "Rat"))),
          raises=[("do not match", "TableErr.lengthMismatch")]),
+    # ---- C18: the legacy table reader's look-up
+    dict(name="find_index", file="_tablereaders.py", func="TableReaderBase._findIndex",
+         params=[("self", ("List", ("Prod", "Rat", "Rat"))), ("x", "Rat")], ret=("Opt", "Int"),
+         implicit=[("bisectLeft", ("Fun", [("List", ("Prod", "Rat", "Rat")), "Rat"], "Int"))], bisect_ops={"self.xproxy": "self"}),
+    dict(name="get_value", file="_tablereaders.py", func="TableReaderBase.getValue",
+         params=[("self", ("List", ("Prod", "Rat", "Rat"))), ("x", "Rat")], ret="Rat",
+         implicit=[("bisectLeft", ("Fun", [("List", ("Prod", "Rat", "Rat")), "Rat"], "Int"))], locals={"lowidx": ("Opt", "Int")}),
     # ---- C11: [Tabulation] grid rules
     dict(name="check_positive", file="config/_config_parser.py", func="_TabulationCutoff._check_positive",
          params=[("nr", ("Opt", "Int")), ("dr", ("Opt", "Rat")), ("cutoff", ("Opt", "Rat"))], ret=("Except", "LogicErr", "Unit"),
@@ -1784,14 +1893,27 @@ def gen_logic(repo, outdir, summary, write_if_changed):
     out = [PRELUDE]
     res = {}
     cache = {}
-    procs = {}
+    import copy
+    all_specs = list(PROCS)
     for spec in PROCS:
+        if spec.get("dest"):
+            # the same function once more, with its output parameter as the DESTINATION: the list of chunks it has received, one per write call that reaches it
+            d = copy.deepcopy(spec)
+            d["name"] = spec["name"] + "_writes"
+            d["params"] = [(n, "Dest" if n == spec["inout"] else t) for n, t in spec["params"]]
+            d["err"] = spec["ret"][1] if spec["ret"][0] == "Except" else None
+            d["ret"] = "Dest"
+            d["variant"], d["dest_mode"] = True, True
+            d.pop("dest")
+            all_specs.append(d)
+    procs = {}
+    for spec in all_specs:
         key = (spec["file"], spec["func"].rsplit(".", 1)[-1])              # calls are resolved within the same source file
         if spec.get("variant"):
             procs[key].setdefault("variants", []).append(spec)            # the same function translated for another type of argument: chosen by the argument types
         else:
             procs[key] = spec
-    for spec in PROCS:
+    for spec in all_specs:
         try:
             fp = os.path.join(repo, "atsim/potentials", spec["file"])
             if fp not in cache:
